@@ -95,7 +95,7 @@ func runCrash(c Case, cc *kit.Case) {
 		return
 	}
 	defer os.RemoveAll(dir)
-	r := &runner{cc: cc, dir: filepath.Join(dir, "live"), m: newModel()}
+	r := &runner{cc: cc, dir: filepath.Join(dir, "live"), m: newModel(), quiet: true}
 	if !r.start() {
 		return
 	}
@@ -145,7 +145,7 @@ func runCrash(c Case, cc *kit.Case) {
 	if r.accepted {
 		verdict = "accepted"
 	}
-	cc.Label(fmt.Sprintf("target %s %s: %d transactions", opClass(target), verdict, min(len(snaps), 6)))
+	r.label(fmt.Sprintf("target %s %s: %d transactions", kind, verdict, min(len(snaps), 6)))
 	if len(snaps) >= 2 {
 		cc.NonTrivial()
 	}
@@ -187,11 +187,11 @@ func runCrash(c Case, cc *kit.Case) {
 		case dPost == nil:
 			m = postR
 			if i < len(snaps)-1 {
-				cc.Label("boundary shows the post-request catalogue")
+				r.label("boundary shows the post-request catalogue")
 			}
 		case dPre == nil:
 			m = preR
-			cc.Label("boundary shows the pre-request catalogue")
+			r.label("boundary shows the pre-request catalogue")
 		default:
 			bads = append(bads, bad{i + 1, classifyCrash(target, preR, postR, o, dPre, dPost),
 				fmt.Sprintf("the catalogue is neither the one before the request (%s) nor the one after it (%s)\n    observed: %s", dPre, dPost, fmtObserved(o))})
@@ -308,8 +308,15 @@ func drawTarget(t *rapid.T, r *kit.Rec, sh *model) Op {
 	case 0: // rename
 		return Op{K: "update", ID: drawID(t, "id", taskPool(sh), badTaskID, 95, exT), NewID: drawID(t, "newid", taskIDs, badTaskID, 90, freeTask(sh)),
 			Status: pick(t, "status", []string{"", "", "enabled", "disabled"})}
-	case 1, 2: // template update (script and/or id)
+	case 1: // template update (script and/or id)
 		return drawTUpdate(t, sh)
+	case 2: // plain task created enabled (create + start bookkeeping), incl. tasks whose start is refused
+		script := pick(t, "script", []string{sStream0, sStream1, sBatchOt, sStreamD})
+		op := Op{K: "create", ID: drawID(t, "id", taskIDs, badTaskID, 95, freeTask(sh)), Script: script, Status: "enabled"}
+		if len(scriptDBRPs(script)) == 0 {
+			op.DBRPs = pick(t, "dbrps", dbrpPool)
+		}
+		return op
 	case 3: // create from template
 		op := Op{K: "create", ID: drawID(t, "id", taskIDs, badTaskID, 95, freeTask(sh)), Tmpl: drawID(t, "tmpl", tmplPool(sh), badTmplID, 95, exP),
 			Status: drawStatus(t), Vars: pick(t, "vars", []map[string]Var{vInt, vExtra})}
